@@ -123,16 +123,18 @@ def dlFile (filePath : Bytes) : Bytes :=
   (splitByte slash (joinByte slash (splitByte backslash filePath))).getLast?.getD []
 
 /-- `DownloadAdd(FileID, FilePath, _)`; `agentsDir` = components of Logr.AgentPath.
-    MkdirAll / Create act on the uncleaned string, which the OS resolves lexically (no symlinks
-    in the loot tree); a name with a slash cannot reach Create (the name was split on '/'). -/
+    MkdirAll / Create act on the cleaned path (the one the containment check looked at); a name with
+    a slash cannot reach Create (the name was split on '/'). -/
 def downloadAdd (agentsDir : List Bytes) (fs : Fs) (a : LootAgent) (fileId : Nat) (filePath : Bytes) :
     Fs × LootAgent × Bool :=
   if insideDir (dlTarget agentsDir a filePath) (dlDirStr agentsDir a) = false then (fs, a, false)
-  -- a NUL byte in the directory part: the OS refuses the path (Stat fails with EINVAL, which is not
+  -- a NUL byte left in the (cleaned) directory part: the OS refuses the path (Stat fails with EINVAL, which is not
   -- "does not exist", so nothing is made; Create fails the same way)
-  else if (dlTarget agentsDir a filePath).contains 0 then (fs, a, false)
+  else if (cleanComps (dlTarget agentsDir a filePath)).2.any (·.contains 0) then (fs, a, false)
   else
-    match fs.mkdirWalk (splitByte slash (dlTarget agentsDir a filePath)) with
+    -- the path that was checked is the path that is made (fix in DownloadAdd): no directory outside the download
+    -- directory is created on the way
+    match fs.mkdirAll (cleanComps (dlTarget agentsDir a filePath)).2 with
     | (fs1, false) => (fs1, a, false)
     | (fs1, true) =>
       let local_ := (cleanComps (dlTarget agentsDir a filePath)).2 ++ [stripNull (dlFile filePath)]
